@@ -277,6 +277,55 @@ def load_known():
     return items
 
 
+def shrink_core(exe, workdir, sres, pid, case, cfg):
+    """Shortest prefix (in operations) of a core history that still shows a violation of `pid`.
+    The PRNG stream of a truncated history is a prefix of the full one, so this is a real replay."""
+    if exe is None or sres["stream"] != "core" or case is None:
+        return None
+    spec_ids = set(cfg.get("spec_ids", [pid]))
+    fields = re.compile(cfg.get("diff_fields_by_stream", {}).get("core", cfg.get("diff_fields", r".*")))
+
+    def shows(k):
+        trace = os.path.join(workdir, f"shrink.{case}.{k}.trace")
+        cmd = [exe, "core", "-seed", str(sres["seed"]), "-out", trace, "-only", str(case), "-maxops", str(k)] + list(sres["args"])
+        try:
+            rc, _ = sh(cmd, timeout=120)
+            with open(trace) as f:
+                rc2, out = sh([DRIVER, "core"], stdin=f, timeout=120)
+        except subprocess.TimeoutExpired:
+            return False, None
+        if rc != 0:
+            return True, trace  # the harness died on this prefix: that is a failing input
+        for l in out.splitlines():
+            if l.startswith("SPEC ") and any(t in spec_ids for t in l.split()[1:5]):
+                return True, trace
+            if l.startswith("DIFF "):
+                m = re.match(r"DIFF line=\d+ (?:(?:hist|case)=\S+ )?(\S+)", l)
+                if m and fields.match(m.group(1)):
+                    return True, trace
+        return False, trace
+
+    hi = None
+    for a in sres["args"]:
+        pass
+    try:
+        hi = int(sres["args"][sres["args"].index("-ops") + 1])
+    except Exception:
+        hi = 90
+    ok, tr = shows(hi)
+    if not ok:
+        return None
+    lo, best = 0, (hi, tr)
+    while lo < hi:
+        mid = (lo + hi) // 2
+        ok, tr = shows(mid)
+        if ok:
+            hi, best = mid, (mid, tr)
+        else:
+            lo = mid + 1
+    return best
+
+
 def write_replay(pid, kind, sres, line, theorem_or_stream, found):
     os.makedirs(REPLAYS, exist_ok=True)
     case = case_of(line) if line else None
@@ -285,6 +334,11 @@ def write_replay(pid, kind, sres, line, theorem_or_stream, found):
     rep = dict(property=pid, kind=kind, stream=sres["stream"], seed=sres["seed"], case=case, args=sres["args"],
                theorem_or_stream=theorem_or_stream, failing_input_found=found, observed=line,
                ops=excerpt(sres["trace"], case))
+    sh_res = sres.get("_shrink", {}).get(case)
+    if sh_res:
+        rep["shrunk_to_ops"] = sh_res[0]
+        rep["args"] = list(sres["args"]) + ["-maxops", str(sh_res[0])]
+        rep["ops"] = excerpt(sh_res[1], case)
     json.dump(rep, open(path, "w"), indent=1)
     return os.path.relpath(path, VERIF)
 
@@ -391,6 +445,14 @@ def run_check(pid, tier, seed, replay=None):
         for key, text in sorted(set(known_lines)):
             out_lines.append(f"KNOWN-FINDING: property={pid} {text}")
         for kind, detail, r, found in violations[:12]:
+            if r is not None and r["stream"] == "core" and kind in ("input", "correspondence"):
+                c = case_of(detail)
+                if c is not None and c not in r.setdefault("_shrink", {}):
+                    try:
+                        r["_shrink"][c] = shrink_core(exe, workdir, r, pid, c, cfg)
+                    except Exception as ex:  # shrinking is best effort
+                        r["_shrink"][c] = None
+                        notes.append(f"shrink failed: {ex}")
             if r is not None:
                 path = write_replay(pid, kind, r, detail, f"stream {r['stream']}: {detail[:160]}", bool(found))
             elif isinstance(found, str):
